@@ -1,0 +1,58 @@
+//go:build verif
+
+package fasthttp
+
+import "errors"
+
+// Thin pass-through wrappers for the C27 verification harness (URI parsing and serialisation).
+// Compiled only with -tags verif; they add no behaviour.
+
+// VerifURIErrClass maps the errors of URI.Parse to class names.
+func VerifURIErrClass(err error) string {
+	var ee EscapeError
+	var he InvalidHostError
+	switch {
+	case err == nil:
+		return "nil"
+	case errors.Is(err, ErrorInvalidURI):
+		return "invalid"
+	case errors.As(err, &ee):
+		return "escape"
+	case errors.As(err, &he):
+		return "hostChar"
+	case errors.Is(err, errInvalidIPv6Host):
+		return "v6host"
+	case errors.Is(err, errInvalidIPv6Zone):
+		return "v6zone"
+	case errors.Is(err, errInvalidIPv6Address):
+		return "v6address"
+	}
+	return "other"
+}
+
+// VerifParseHost runs parseHost on a copy of host.
+func VerifParseHost(host []byte) ([]byte, string) {
+	h, err := parseHost(append([]byte(nil), host...))
+	return h, VerifURIErrClass(err)
+}
+
+// VerifUnescape runs unescape on a copy of s in host or zone mode.
+func VerifUnescape(s []byte, zone bool) ([]byte, string) {
+	mode := encodeHost
+	if zone {
+		mode = encodeZone
+	}
+	r, err := unescape(append([]byte(nil), s...), mode)
+	return r, VerifURIErrClass(err)
+}
+
+// VerifAppendQuotedPath exposes appendQuotedPath.
+func VerifAppendQuotedPath(src []byte) []byte { return appendQuotedPath(nil, src) }
+
+// VerifDecodeNoPlus exposes decodeArgAppendNoPlus.
+func VerifDecodeNoPlus(src []byte) []byte { return decodeArgAppendNoPlus(nil, src) }
+
+// VerifSplitHostURI exposes splitHostURI.
+func VerifSplitHostURI(host, uri []byte) (scheme, newHost, newURI []byte) {
+	return splitHostURI(host, uri)
+}
